@@ -698,8 +698,9 @@ theorem notCont_nil : notCont [] := by simp [notCont, hasLen]
 
 theorem sstFromStream_encode (cstTotal : Nat) (table : List Entry) (lys : List EntryLayout)
     (hok : TableOk table lys) (hcount : table.length < 2147483648)
-    (hsizes : ∀ f ∈ encodeSst cstTotal table lys, f.length < 65536) (fuel : Nat) :
-    sstFromStream (fuel + 1) (frameSst (encodeSst cstTotal table lys))
+    (hsizes : ∀ f ∈ encodeSst cstTotal table lys, f.length < 65536) (fuel : Nat)
+    (rest : Bytes) (hrest : notCont rest) :
+    sstFromStream (fuel + 1) (frameSst (encodeSst cstTotal table lys) ++ rest)
       = .ok (table.map fun e => decodeUtf16 e.units) := by
   have hgood : goodToks (.b (le32 cstTotal ++ le32 table.length) :: tableToks table lys) := by
     simp only [goodToks]; exact goodToks_tableToks table lys hok
@@ -708,9 +709,8 @@ theorem sstFromStream_encode (cstTotal : Nat) (table : List Entry) (lys : List E
   simp only [frameSst]
   have hnr := nextRecord_frameRec 0xFC
     (lay (.b (le32 cstTotal ++ le32 table.length) :: tableToks table lys)).1
-    (lay (.b (le32 cstTotal ++ le32 table.length) :: tableToks table lys)).2 [] (by omega)
-    (hsizes _ (List.mem_cons_self ..)) (fun f hf => ⟨hne f hf, hsizes f (List.mem_cons_of_mem _ hf)⟩) notCont_nil
-  rw [List.append_nil] at hnr
+    (lay (.b (le32 cstTotal ++ le32 table.length) :: tableToks table lys)).2 rest (by omega)
+    (hsizes _ (List.mem_cons_self ..)) (fun f hf => ⟨hne f hf, hsizes f (List.mem_cons_of_mem _ hf)⟩) hrest
   simp only [sstFromStream, hnr, Res.bind_ok, if_true]
   exact parseSst_encode cstTotal table lys hok hcount 0xFC
 
